@@ -345,6 +345,17 @@ func (f *parserFlow) alwaysConsumes(g *ssa.Function) bool {
 func (f *parserFlow) isConsumePredResult(v ssa.Value) bool {
 	v = unspill(v)
 	switch x := v.(type) {
+	case *ssa.Phi:
+		// `for x, ok := pred(); ok; x, ok = pred()`: the flag of a three-clause loop is a phi of results
+		if len(x.Edges) == 0 {
+			return false
+		}
+		for _, e := range x.Edges {
+			if e == v || !f.isConsumePredResult(e) {
+				return false
+			}
+		}
+		return true
 	case *ssa.Call:
 		if g := x.Common().StaticCallee(); g != nil {
 			if bi, ok := f.consumePred[g]; ok && g.Signature.Results().Len() == 1 && bi == 0 {
@@ -366,6 +377,16 @@ func (f *parserFlow) isConsumePredResult(v ssa.Value) bool {
 func (f *parserFlow) isGuardPredResult(v ssa.Value) bool {
 	v = unspill(v)
 	switch x := v.(type) {
+	case *ssa.Phi:
+		if len(x.Edges) == 0 {
+			return false
+		}
+		for _, e := range x.Edges {
+			if e == v || !f.isGuardPredResult(e) {
+				return false
+			}
+		}
+		return true
 	case *ssa.Call:
 		if g := x.Common().StaticCallee(); g != nil {
 			if bi, ok := f.entryGuard[g]; ok && g.Signature.Results().Len() == 1 && bi == 0 {
